@@ -1,10 +1,8 @@
-//go:debug asynctimerchan=0
-package ptracker
+package pingest
 
 import (
 	"fmt"
 	"os"
-	"runtime/pprof"
 	"testing"
 
 	"github.com/metal-toolbox/audito-maldito/internal/verif/mc"
@@ -25,17 +23,12 @@ func TestCheck(t *testing.T) {
 	if prop == "" {
 		t.Skip()
 	}
-	if f := os.Getenv("VERIF_CPUPROFILE"); f != "" {
-		fh, _ := os.Create(f)
-		_ = pprof.StartCPUProfile(fh)
-		defer func() { pprof.StopCPUProfile(); fh.Close() }()
-	}
 	run := mc.Start(prop)
 	switch prop {
-	case "C01", "C02", "C04", "C09", "C16", "C10":
-		exitCode = runBFS(run)
-	case "C03":
-		exitCode = runConc(run)
+	case "C12":
+		exitCode = runC12(run)
+	case "C13":
+		exitCode = runC13fifo(run)
 	default:
 		fmt.Println("unknown property", prop)
 	}
